@@ -19,6 +19,7 @@ type World struct {
 	TB       [32]byte
 	Tokens   []string // token id hex, registered with Mode ok
 	BadToks  []string // token ids whose metadata calls misbehave
+	LongToks []string // well-behaved token contracts whose name and/or symbol is longer than the 32 bytes an attestation can carry
 	NextSeq  uint64
 	nBlock   int
 	Blocks   []*Block
@@ -51,6 +52,22 @@ func NewWorld(rng *rand.Rand, pageLimit int, mainnet bool, pollMs uint, step fun
 			id := randHex(rng, 32)
 			s.Tokens[id] = &Token{Symbol: fmt.Sprintf("TK%d", i), Name: fmt.Sprintf("Token %d", i), Decimals: []int{0, 8, 18}[i], Mode: "ok"}
 			w.Tokens = append(w.Tokens, id)
+			tokMu.Lock()
+			TokenByAddress[addrOf(id)] = id
+			tokMu.Unlock()
+		}
+		for i := 0; i < 3; i++ {
+			id := randHex(rng, 32)
+			name, sym := fmt.Sprintf("A token whose name does not fit into an attestation %d", i), fmt.Sprintf("LNG%d", i)
+			if i == 1 {
+				sym = "SYMBOL-THAT-IS-LONGER-THAN-THIRTY-TWO-BYTES"
+			}
+			if i == 2 {
+				name = "Short name"
+				sym = "SYMBOL-THAT-IS-LONGER-THAN-THIRTY-TWO-BYTES-2"
+			}
+			s.Tokens[id] = &Token{Symbol: sym, Name: name, Decimals: 8, Mode: "ok"}
+			w.LongToks = append(w.LongToks, id)
 			tokMu.Lock()
 			TokenByAddress[addrOf(id)] = id
 			tokMu.Unlock()
@@ -93,10 +110,15 @@ func (w *World) Intent(kind string, cl uint8) *Intent {
 		in.Payload = make([]byte, 133)
 		w.Rng.Read(in.Payload)
 		in.Payload[0] = 1
-	case "attest", "attest-mismatch", "attest-bad-token":
+	case "attest", "attest-mismatch", "attest-bad-token", "attest-long-name":
 		id := w.Tokens[w.Rng.Intn(len(w.Tokens))]
 		if kind == "attest-bad-token" {
 			id = w.BadToks[w.Rng.Intn(len(w.BadToks))]
+		}
+		if kind == "attest-long-name" {
+			// the contract reports more than 32 bytes; the attestation carries the 32-byte cut, a shorter prefix or nothing:
+			// in no case what the token contract itself reports
+			id = w.LongToks[w.Rng.Intn(len(w.LongToks))]
 		}
 		var t *Token
 		t = w.Sim.Tokens[id]
@@ -106,6 +128,23 @@ func (w *World) Intent(kind string, cl uint8) *Intent {
 		p = append(p, 0, 255, byte(t.Decimals))
 		p = append(p, pad32(t.Symbol)...)
 		p = append(p, pad32(t.Name)...)
+		if kind == "attest-long-name" {
+			cut := func(v string) []byte {
+				if len(v) <= 32 {
+					return pad32(v)
+				}
+				switch w.Rng.Intn(3) {
+				case 0:
+					return pad32(v[:32])
+				case 1:
+					return pad32(v[:1+w.Rng.Intn(31)])
+				}
+				return pad32("")
+			}
+			p = p[:36]
+			p = append(p, cut(t.Symbol)...)
+			p = append(p, cut(t.Name)...)
+		}
 		if kind == "attest-mismatch" {
 			switch w.Rng.Intn(3) {
 			case 0:
